@@ -73,6 +73,12 @@ fn main() {
             let code = replay_cmd(&args[2], &args[3]);
             std::process::exit(code);
         }
+        "words" => {
+            let xs = xs::boot_safe();
+            for (n, k) in xs.verif_dict() {
+                println!("{} {}", k, n);
+            }
+        }
         "list" => {
             for p in props::all() {
                 println!("{}", p.id);
